@@ -1,6 +1,7 @@
 CONSTANTS
   MaxLen = 7
   Small = 10
+  STEP0 = TRUE
   DEVS = {}
 SPECIFICATION Spec
 INVARIANTS Inv_NoFail Inv_Result Inv_Loop Inv_OperatorForm Inv_Bounded Inv_Index
